@@ -74,8 +74,27 @@ def sym_scalar(E, name="k"):
 # first character / length of Base58Check strings by (first payload byte, payload length); each row
 # is a lemma proved in C09 (WIF) / C07 (extended keys) as an integer-arithmetic query over all
 # payload tails and checksums
-FIRST_CHAR = {(0x80, 34): ("KL", 52), (0x80, 33): ("5", 51), (0xef, 34): ("c", 52), (0xef, 33): ("9", 51),
-              (0x04, 78): ("tuvxyz", 111)}
+FIRST_CHAR = {(b"\x80", 34): ("KL", 52), (b"\x80", 33): ("5", 51), (b"\xef", 34): ("c", 52), (b"\xef", 33): ("9", 51),
+              (b"\x05", 21): ("3", 34), (b"\x6f", 21): ("mn", 34), (b"\xc4", 21): ("2", 35), (b"\x00", 21): ("1", None)}
+for (_p, _t, _k), _v in SLIP132.items():
+    FIRST_CHAR[(_v.to_bytes(4, "big"), 78)] = ({44: "xt", 49: "yu", 84: "zv"}[_p][1 if _t else 0], 111)
+
+
+def b58_lemma(E, prefix, plen):
+    """integer lemma behind a FIRST_CHAR row: for every payload tail and every 4-byte checksum the Base58 string of
+    prefix || tail || checksum has the listed first character(s) and length"""
+    chars, m = FIRST_CHAR[(prefix, plen)]
+    total = plen + 4
+    rest = E.int("rest", 0, 256 ** (total - len(prefix)) - 1)
+    V = int.from_bytes(prefix, "big") * 256 ** (total - len(prefix)) + rest
+    if m is None:
+        # leading zero byte: Base58 maps it to a leading '1' by the leading-zero rule (C10)
+        E.check(V < 256 ** (total - 1), "lemma: payload starting with 00 has a leading zero byte, hence a leading '1'")
+        return
+    lo = min(_ALPHA.index(c) for c in chars)
+    hi = max(_ALPHA.index(c) for c in chars)
+    E.check(V >= lo * 58 ** (m - 1), "lemma: leading Base58 digit is at least the first listed character")
+    E.check(V < (hi + 1) * 58 ** (m - 1), "lemma: leading Base58 digit is at most the last listed character; length is m")
 
 
 class B58C:
@@ -86,14 +105,17 @@ class B58C:
         self.payload = payload
 
     def _row(self):
-        p0 = self.payload[0]
-        if not isinstance(p0, int):
-            from sx.core import Unsupported
-            raise Unsupported("first character of a Base58Check string with symbolic version byte")
-        row = FIRST_CHAR.get((p0, len(self.payload)))
+        from sx.core import Unsupported
+        n = len(self.payload)
+        k = 4 if n == 78 else 1
+        pre = []
+        for x in list(self.payload)[:k]:
+            if not isinstance(x, int):
+                raise Unsupported("first character of a Base58Check string with symbolic version byte(s)")
+            pre.append(x)
+        row = FIRST_CHAR.get((bytes(pre), n))
         if row is None:
-            from sx.core import Unsupported
-            raise Unsupported("no first-character lemma for payload %02x/%d" % (p0, len(self.payload)))
+            raise Unsupported("no first-character lemma for payload %s/%d" % (bytes(pre).hex(), n))
         return row
 
     def __getitem__(self, i):
@@ -111,7 +133,11 @@ class B58C:
         return SxChar(alpha, SxInt(v, 0, len(alpha) - 1))
 
     def __len__(self):
-        return self._row()[1]
+        n = self._row()[1]
+        if n is None:
+            from sx.core import Unsupported
+            raise Unsupported("length of a Base58Check string with leading zero bytes")
+        return n
 
     def __eq__(self, o):
         return isinstance(o, B58C) and (self.payload == o.payload)
